@@ -65,7 +65,7 @@ Section Site.
     = spec_lit MTs cfg (spec_file_exempt MTs f) sc s l.
   Proof.
     intros Hin Hp. unfold site_good in Hsite.
-    apply andb_prop in Hsite. destruct Hsite as [H123 Hlits]. apply andb_prop in H123. destruct H123 as [H12 _].
+    apply andb_prop in Hsite. destruct Hsite as [H123 Hlits]. apply andb_prop in H123. destruct H123 as [H123 _]. apply andb_prop in H123. destruct H123 as [H12 _].
     apply andb_prop in H12. destruct H12 as [Hctx Hnm].
     rewrite forallb_forall in Hlits. specialize (Hlits l Hin).
     unfold ts_site_report, spec_lit. cbn [t_type t_text t_anc t_line].
